@@ -89,7 +89,7 @@ CLAIMED = {
   ref='6/C03', technique='Lean 4 proof (conservation/counting invariant over attempt histories, store refinement) + differential correspondence vs real Queue on 4 backends',
   note='Partial: the interleaving theorem is about the scheduler model of C12 (bounded pools included) under the Calm assumption.'),
  'C01': dict(
-  text='PARTIAL (calm environment of C12; storage calls atomic inside a section; bounded pools: the safety statements hold, the stall is a known finding; liveness is stated as: never without a next step). The ledger and the scheduler are ONE transition system now (Model/QueueM.lean: the scheduler state of Model/Sched.lean + what the storage holds for every message + every attempt\'s envelope + the verdict of _attempt + bounces + a ghost ledger; a step of it IS a step of the scheduler model, its two-phase attempt IS Attempt.attempt: step_sched, phases_eq_attempt). Over it, for every interleaving of enqueues, announcements, ticks, scheduler turns, _dequeue tasks, relay answers of any shape, backoff answers, re-queues, removals and flushes: one_disposition (every accepted recipient is counted exactly once in delivered / failed for good / outstanding, in every reachable state), accepted_never_lost (delivered, or failed and named in a bounce quoting its reply when a bounce is produced, or outstanding in a message that is still stored and handed off / in flight / finishing / dequeuing / in the timetable with the loop due to wake by its time), removed_means_final; attempt_numbers_count_up (the k-th hand-off of a message to the relay carries attempts = k: 0, 1, 2, ... oldest first, none skipped, none twice), stored_attempts_is_handoffs, attempts_need_backoff and attempts_bounded (in histories where _retry_later gets the backoff function\'s answer for the incremented counter a message is attempted for the a-th time only if the backoff function allowed it, so a backoff that gives up after N bounds the attempts on every message by N + 1 — with accepted_never_lost the measure under which every recipient reaches delivered or failed for good). The relay contract assumed there is met by the relay models (relay_contract_met, with C11\'s attempt_answers_everyone and sequence_complete). The sequential theorems over Model/Attempt.lean remain: for every attempt outcome and every history each accepted recipient '
+  text='PARTIAL (calm environment of C12; storage calls atomic inside a section; bounded pools: the safety statements hold, the stall is a known finding; liveness is stated as: never without a next step). The ledger and the scheduler are ONE transition system now (Model/QueueM.lean: the scheduler state of Model/Sched.lean + what the storage holds for every message + every attempt\'s envelope + the verdict of _attempt + bounces + a ghost ledger; a step of it IS a step of the scheduler model, its two-phase attempt IS Attempt.attempt: step_sched, phases_eq_attempt). Over it, for every interleaving of enqueues, announcements, ticks, scheduler turns, _dequeue tasks, relay answers of any shape, backoff answers, re-queues, removals and flushes: one_disposition (every accepted recipient is counted exactly once in delivered / failed for good / outstanding, in every reachable state), accepted_never_lost (delivered, or failed and named in a bounce quoting its reply when a bounce is produced, or outstanding in a message that is still stored and handed off / in flight / finishing / dequeuing / in the timetable with the loop due to wake by its time), removed_means_final; attempt_numbers_count_up (the k-th hand-off of a message to the relay carries attempts = k: 0, 1, 2, ... oldest first, none skipped, none twice), stored_attempts_is_handoffs, attempts_need_backoff and attempts_bounded (in histories where _retry_later gets the backoff function\'s answer for the incremented counter a message is attempted for the a-th time only if the backoff function allowed it, so a backoff that gives up after N bounds the attempts on every message by N + 1 (after a restart on stored counters: by N + 1 - counter, attempts_bounded_after_restart) — with accepted_never_lost the measure under which every recipient reaches delivered or failed for good). The relay contract assumed there is met by the relay models (relay_contract_met, with C11\'s attempt_answers_everyone and sequence_complete). The sequential theorems over Model/Attempt.lean remain: for every attempt outcome and every history each accepted recipient '
        'is exactly one of delivered / failed for good / still stored; the message is removed only when nobody is outstanding; when the backoff '
        'returns None everybody outstanding is failed; failed recipients of a non-null-sender message are named in a bounce (with C13). The real Queue '
        'is driven through seeded histories mixing None/Reply, mapping, sequence, Transient, Permanent and unexpected exceptions on dict, disk, redis and '
